@@ -62,8 +62,8 @@ Example hypotheses_satisfiable :
   log (st (do_client_append 1 7 run_followers) 1) = [(2, 0); (2, 7)] /\
   log (st run_crashed 1) = [(2, 0)].
 Proof.
-  pose proof run_facts as H.
-  split; [apply H|]. split; [apply H|]. split; [apply H|].
+  split; [exact (proj1 run_facts)|]. split; [exact reachable_run_committed|].
+  split; [exact reachable_run_crashed|].
   split; [exact steps_committed_crashed|].
   vm_compute. repeat split; reflexivity.
 Qed.
